@@ -406,6 +406,7 @@ func (ch *channel) addTrData(rd *trData) {
 		ch.masterTrName = rd.name
 	}
 	ch.trDatas[rd.name] = rd
+	vhook.Event("recv.registered", ch.name, rd.name)
 	ch.trIDs = append(ch.trIDs, rd.name)
 	sort.Strings(ch.trIDs)
 	ch.mu.Unlock()
